@@ -194,6 +194,9 @@ func TestVerif_C02(t *testing.T) {
 				if tg.kind == "group" && st.del >= 0 {
 					continue
 				}
+				if c.name != "sb2" && !r.Thorough() && (st.name != "k7" && st.name != "k9") {
+					continue // other superblock versions: threshold-adjacent start states only (quick)
+				}
 				c, tg, st := c, tg, st
 				var prefix []vfOp
 				other := vfOp{Op: "mkds", Path: "/other", Type: "i32", Dims: []uint64{2}}
